@@ -37,7 +37,7 @@ pub open spec fn passes_through<Q, T>(t: Trace<Q, T>, r: ::std::result::Result<T
 //@ ghostparam Tracked(t): Tracked<&mut Trace<GetinfoRequest, GetinfoResponse>>
 //@ requires#fresh [C20,C14]
       !old(t).called && old(t).last is None && !old(t).shared_lock_held
-//@ ensures#hands_back_exactly_what_the_node_answered [C20]
+//@ ensures#hands_back_exactly_what_the_node_answered [C20,C04]
       passes_through(*final(t), r) && !final(t).shared_lock_held
 //@ end
 //@ fn rpc::ClnRpc::listdatastore
